@@ -88,9 +88,14 @@ class ClassTable:
 
         from .specialise import specialise_class_constants
 
-        self.flattened = flatten_objects(self) + specialise_class_constants(self)
+        from .memo import fold_memo
+
+        self.flattened = flatten_objects(self) + specialise_class_constants(self) + fold_memo(self)
         positional_calls(self)
         self.inlined = inline_helpers(self)
+        from .discriminant import fold_discriminants
+
+        self.flattened += fold_discriminants(self)
         if self.inlined or self.flattened:
             from .canon import recanonicalise_function
 
